@@ -165,6 +165,18 @@ CHECKS = {
         note='Trusted: TLC, the audit-hook / io.open crash model (a BaseException before the k-th mutating call), single writer. '
              'Byte identity of earlier items is checked through content identifiers of tags and states.',
         design='6/C05'),
+    'C16': dict(
+        technique='TLC exhaustive over the serving pipeline model (Serving.tla: all interleavings of 5-7 requests over executors, '
+                  'FIFO queues and forked workers, with failing requests; safety + liveness) + the real Engine under seeded concurrent '
+                  'batches judged per response, and hook-emitted task life-cycle logs validated by TraceServing.tla',
+        text='Serving.tla checks NoCross, AtMostOnce, FailAlone, UniqueIds and <>AllAnswered over every interleaving within the '
+             'constants. The real runtime Engine (registry with three generations, dispatch, executors, spawned pools, forked workers, '
+             'pyfunc) serves batches of 1..64 concurrent requests over pool sizes 1..4 with unknown-application / unsupported-encoding / '
+             'missing-feature requests injected; every response must carry its own id and the stamp of the selected generation, and the '
+             'per-process submit/take/exec/done/resolve logs must be a behaviour of the task protocol (linear-time validation in TLC).',
+        note='Trusted: TLC, the guarded hooks (FORML_VERIF=1), monotone enabling argument for the fixed scheduling of the trace spec. '
+             'Real parallel timing is sampled, not exhausted. Non-platform exceptions (which stop a pool by design) are not injected.',
+        design='6/C16'),
 }
 
 NOT_YET = {}
@@ -215,7 +227,7 @@ def main():
         json.dump(manifest, fh, indent=1)
 
 
-HOOK_COMMITS = []
+HOOK_COMMITS = ['728249e', 'ba8cfeb']
 
 if __name__ == '__main__':
     main()
